@@ -69,6 +69,13 @@ type Case struct {
 	// one goroutine each, the handlers meeting at a barrier so that the
 	// dispatches overlap.
 	Concurrent bool `json:",omitempty"`
+
+	// StageMask != 0: also register the patterns in two steps on one
+	// multiplexer (bit k%60 set: pattern k belongs to the second step; bit 61:
+	// feed from memory readers), dispatching every element after each step.
+	StageMask uint64 `json:",omitempty"`
+
+	EmptyTypePatterns bool `json:",omitempty"` // patterns with the zero stanza type next to explicit ones
 }
 
 const nsFwd = "urn:verif:fwd"
@@ -162,6 +169,10 @@ type Expect struct {
 	Shape    string   // empty | children | top
 	Invoke   []ExpInv // handlers, in order
 	Fallback bool     // one service-unavailable error reply
+
+	// FallbackOptional: an unhandled IQ without a type attribute; a reply is
+	// neither demanded nor forbidden.
+	FallbackOptional bool
 
 	// OrWild: a payload-less IQ of type get, set or error is not a legal stanza
 	// and the library's own tests pin that the type wildcard is not handed one;
@@ -276,6 +287,8 @@ func (r *refMux) expect(e *El) Expect {
 			x.Invoke = []ExpInv{{p.Tag(), step, child, p}}
 		} else if typ == "get" || typ == "set" {
 			x.Fallback = true
+		} else if typ == "" && x.OrWild == nil {
+			x.FallbackOptional = true
 		}
 	default:
 		if len(e.Kids) == 0 {
@@ -371,8 +384,8 @@ func genStanza(r *rand.Rand, kind, typ, ns string, id int) *El {
 	if (kind == "message" && typ == "normal" || kind == "presence" && typ == "") && r.Intn(2) == 0 {
 		e.NoType = true
 	}
-	if kind == "presence" && typ == "" {
-		e.NoType = true // type='' is not a legal way to spell available
+	if (kind == "presence" || kind == "iq") && typ == "" {
+		e.NoType = true // type='' is not a legal way to spell available; an untyped IQ
 	}
 	if kind == "message" && typ == "normal" && !e.NoType && r.Intn(2) == 0 {
 		e.Type = unknownMessageTypes[r.Intn(len(unknownMessageTypes))]
@@ -413,7 +426,11 @@ func genCase(r *rand.Rand) *Case {
 	for i, n := 0, 1+r.Intn(2); i < n; i++ {
 		k := kinds[r.Intn(3)]
 		ts := kindTypes[k]
-		focus = append(focus, kt{k, ts[r.Intn(len(ts))]})
+		f := kt{k, ts[r.Intn(len(ts))]}
+		if k == "iq" && r.Intn(6) == 0 {
+			f.t = "" // IQs without a type attribute and patterns registered with the zero IQType
+		}
+		focus = append(focus, f)
 	}
 	seen := map[patKey]bool{}
 	add := func(p Pat) {
@@ -441,6 +458,27 @@ func genCase(r *rand.Rand) *Case {
 		own := ownNames(f.k, elemNS)
 		for _, i := range r.Perm(len(own))[:1+r.Intn(len(own))] {
 			add(genPat(r, f.k, f.t, own[i]))
+		}
+	}
+	// patterns registered with the zero value of the stanza type next to
+	// explicit ones for the same payloads: an empty IQ type matches only IQs
+	// without a type attribute, an empty message type matches nothing (a
+	// message without a type is a normal message)
+	if r.Intn(5) == 0 {
+		for _, f := range focus {
+			if f.k == "presence" {
+				continue // the empty presence type is the available presence, a defined type
+			}
+			other := ""
+			if f.t == "" {
+				other = "get"
+			}
+			for _, n := range names {
+				if r.Intn(3) == 0 {
+					add(genPat(r, f.k, other, n))
+					c.EmptyTypePatterns = true
+				}
+			}
 		}
 	}
 	// noise: the same names under other kinds and types, which must be ignored
@@ -557,6 +595,14 @@ func genCase(r *rand.Rand) *Case {
 		}
 	}
 	c.Served = r.Intn(12) == 0
+	for _, e := range c.Els {
+		if e.Local == "iq" && e.NoType {
+			c.Served = false // whether the fallback answers an untyped IQ is left open
+		}
+	}
+	if r.Intn(6) == 0 {
+		c.StageMask = r.Uint64() | 1<<62
+	}
 	for _, p := range c.Pats {
 		if p.Err {
 			// a handler error ends a served session; what the session does with
